@@ -13,6 +13,14 @@ def nfun(b):
     return len(b['knots']) - b['order'] - (b['periodic'] + 1)
 
 
+# probability with which gen_obj moves every knot vector far from the origin and compresses it (knot values ~4096, spans
+# ~1/64: neighbouring knots closer than 1e-5 of their magnitude, still millions of tolerances apart); set per check
+FAR_PROB = 0.0
+# probability of a uniformly rescaled homogeneous net (all weights and weighted coordinates times 2^-40: the same geometry with
+# tiny weights) and of coordinates of magnitude 2^+-20
+SCALE_PROB = 0.06
+
+
 def gen_obj(rng, pardim=None, dim=None, rational=None, kinds=None, pmax=None, nint_max=None, big_periodic=False, dir_kinds=None, multi=None):
     pardim = pardim or rng.choice([1, 1, 2, 2, 3])
     pmax = pmax or {1: 6, 2: 4, 3: 3}[pardim]
@@ -29,6 +37,10 @@ def gen_obj(rng, pardim=None, dim=None, rational=None, kinds=None, pmax=None, ni
                     continue
                 break
         bases.append(b)
+    if FAR_PROB and rng.random() < FAR_PROB:
+        for b_ in bases:
+            k0_ = b_['knots'][0]
+            b_['knots'] = [4096 + (x_ - k0_) / 64 for x_ in b_['knots']]
     dim = dim or rng.choice([1, 2, 2, 3, 3])
     if rational is None:
         rational = rng.random() < 0.4
@@ -47,6 +59,14 @@ def gen_obj(rng, pardim=None, dim=None, rational=None, kinds=None, pmax=None, ni
         cps.append(pt)
     # how the control points are handed to the constructor (see make_impl): mostly the internal raw form
     ctor = rng.choice(['raw'] * 6 + ['flatC', 'flatF', 'flatF', 'strided', 'list'])
+    if not intcps and SCALE_PROB:
+        r_ = rng.random()
+        if rational and r_ < SCALE_PROB:
+            lam_ = Fr(1, 2 ** rng.choice([30, 40]))
+            cps = [[c_ * lam_ for c_ in pt] for pt in cps]
+        elif r_ < 2 * SCALE_PROB:
+            mag_ = Fr(2) ** rng.choice([20, -20, 12])
+            cps = [[c_ * mag_ if (not rational or j_ < dim) else c_ for j_, c_ in enumerate(pt)] for pt in cps]
     return dict(bases=bases, cps=cps, dim=dim, rational=bool(rational), intcps=intcps, ctor=ctor)
 
 
